@@ -150,11 +150,71 @@ fn check_b(c: &Spelled, rec: &mut Rec) -> Verdict {
         }
         Err(p) => return Verdict::fail(format!("C05:B:decode-{}:{}", panic_sig(&p), shape(&v)), format!("{} at {}", p.msg, p.location)),
     };
-    diff_verdict("C05:B", &v, &project(&back), &text, rec)
+    let r = diff_verdict("C05:B", &v, &project(&back), &text, rec);
+    if r.is_fail() {
+        return r;
+    }
+    // the same document through the entry points that cannot lend strings (a reader, a serde_json::Value), and
+    // through the decoder of the value's own type
+    macro_rules! typed {
+        ($T:ty, $wrap:expr) => {{
+            let routes: [(&str, Box<dyn Fn() -> Result<$T, String>>); 3] = [
+                ("typed-str", Box::new(|| serde_json::from_str::<$T>(&text).map_err(|e| e.to_string()))),
+                ("typed-reader", Box::new(|| serde_json::from_reader::<_, $T>(std::io::Cursor::new(text.as_bytes())).map_err(|e| e.to_string()))),
+                ("typed-value", Box::new(|| serde_json::from_str::<J>(&text).and_then(serde_json::from_value::<$T>).map_err(|e| e.to_string()))),
+            ];
+            for (route, f) in routes.iter() {
+                match guarded(|| f()) {
+                    Ok(Ok(x)) => {
+                        let xv: Value = $wrap(x);
+                        let r = diff_verdict(&format!("C05:B:{route}:{}", stringify!($T)), &v, &project(&xv), &text, rec);
+                        if r.is_fail() {
+                            return r;
+                        }
+                    }
+                    Ok(Err(e)) => return Verdict::fail(format!("C05:B:{route}:{}:decode-error", stringify!($T)), format!("the {} decoder ({route}) rejects {}: {e}", stringify!($T), trunc(&text, 300))),
+                    Err(p) => return Verdict::fail(format!("C05:B:{route}:{}:{}", stringify!($T), panic_sig(&p)), p.msg),
+                }
+            }
+            rec.class("B:typed-decoders(str,reader,value)");
+        }};
+    }
+    use libhaystack::val::*;
+    match &v {
+        RVal::Num(..) => typed!(Number, Value::Number),
+        RVal::Ref(..) => typed!(Ref, Value::Ref),
+        RVal::Uri(..) => typed!(Uri, Value::Uri),
+        RVal::Symbol(..) => typed!(Symbol, Value::Symbol),
+        RVal::Date(..) => typed!(Date, Value::Date),
+        RVal::Time(..) => typed!(Time, Value::Time),
+        RVal::DateTime(..) => typed!(DateTime, Value::DateTime),
+        RVal::Coord(..) => typed!(Coord, Value::Coord),
+        RVal::XStr(..) => typed!(XStr, Value::XStr),
+        RVal::Dict(..) => typed!(Dict, Value::Dict),
+        RVal::Grid(..) => typed!(Grid, Value::Grid),
+        RVal::List(..) => typed!(List, Value::List),
+        _ => {}
+    }
+    for (route, got) in [
+        ("reader", guarded(|| serde_json::from_reader::<_, Value>(std::io::Cursor::new(text.as_bytes())).map_err(|e| e.to_string()))),
+        ("value", guarded(|| serde_json::from_str::<J>(&text).and_then(serde_json::from_value::<Value>).map_err(|e| e.to_string()))),
+    ] {
+        match got {
+            Ok(Ok(x)) => {
+                let r = diff_verdict(&format!("C05:B:{route}"), &v, &project(&x), &text, rec);
+                if r.is_fail() {
+                    return r;
+                }
+            }
+            Ok(Err(e)) => return Verdict::fail(format!("C05:B:{route}:decode-error"), format!("from_{route} rejects {}: {e}", trunc(&text, 300))),
+            Err(p) => return Verdict::fail(format!("C05:B:{route}:{}", panic_sig(&p)), p.msg),
+        }
+    }
+    Verdict::Pass
 }
 
 pub fn run(ctx: &mut Ctx) {
-    ctx.rule("A: generated well-formed value -> serde_json::to_string -> independent strict Hayson reader (exact _kind strings and member names, own JSON parser) must read the same value. B: (value, choices) -> independent writer (member order permuted in every object, _kind:dict present/absent, grid meta absent/{}/with ver, column meta absent/{}, tz present/absent for UTC, unit by any identifier, unit-less number plain or as object, number spelled as integer/decimal/exponent) -> libhaystack decoder must read the same value. non-trivial: document has a _kind object (and for B a non-default choice); distinct by JSON text");
+    ctx.rule("A: generated well-formed value -> serde_json::to_string -> independent strict Hayson reader (exact _kind strings and member names, own JSON parser) must read the same value. B: (value, choices) -> independent writer (member order permuted in every object, _kind:dict present/absent, grid meta absent/{}/with ver, column meta absent/{}, tz present/absent for UTC, unit by any identifier, unit-less number plain or as object, number spelled as integer/decimal/exponent) -> libhaystack decoder must read the same value - through from_str, from_reader and from_value, and through the typed decoder of the value's own kind by the same three routes. non-trivial: document has a _kind object (and for B a non-default choice); distinct by JSON text");
     ctx.assume("reference implements DESIGN.md appendix B; a dict tag named _kind and a grid meta tag named ver are outside the model of this encoding");
     let depth = ctx.tier.pick(3, 4) as u32;
     let before = ctx.violations.len();
